@@ -363,7 +363,16 @@ pub fn gen_c06(tier: &str, r: u64, ex: u64, rng: &mut Rng) -> Value {
     let napp = rng.below(3);
     for _ in 0..napp {
         let ki = rng.idx(nk);
-        let mut st = if rng.chance(1, 4) { json!({"k":"api","op":"remove","key":ki}) } else { let vi = rng.idx(3); write_step(rng, Some(ki), vi, vlen(&vals, vi), &wcfg) };
+        let earlier: Vec<Value> = steps.iter().filter(|s| s["op"] == "write").cloned().collect();
+        let mut st = if rng.chance(1, 4) {
+            json!({"k":"api","op":"remove","key":ki})
+        } else if !earlier.is_empty() && rng.chance(1, 3) {
+            // the very write whose record may just have been damaged, issued again exactly as it was
+            rng.pick(&earlier).clone()
+        } else {
+            let vi = rng.idx(3);
+            write_step(rng, Some(ki), vi, vlen(&vals, vi), &wcfg)
+        };
         set_flav(&mut st, flav(rng));
         steps.push(st);
     }
